@@ -8039,6 +8039,16 @@ fn eval_match_cases(
     }))
 }
 
+/// Discard the expression that the current stack frame was about to
+/// evaluate, as requested by `:skip`.
+///
+/// Returns false if this stack frame has no pending expression, so
+/// there is nothing to skip.
+pub(crate) fn skip_current_expr(env: &mut Env) -> bool {
+    let stack_frame = env.current_frame_mut();
+    stack_frame.exprs_to_eval.pop().is_some()
+}
+
 /// Evaluate the toplevel expressions provided, and then stop. If we
 /// had previously interrupted execution, we should still be
 /// interrupted at the same place.
